@@ -63,13 +63,13 @@ CLAIMS = {
         text="Decides shape conditions of the assignability/overlap relation: quantifier polarity per arm and union mode, callable variance, the "
              "121-pair variant coverage matrix (no same-kind pair falls to `_ => false`), the direction of the narrowing fallbacks (never/empty only "
              "under the right test in the right argument order), and that the relation is closed (no unreviewed helper, fresh coinductive state per "
-             "query). The coinductive relation's soundness over all closed contractive types is NOT decided.",
-        design="§3 C09", technique="static analysis: HIR pattern-matrix evaluation over variant pairs, quantifier/variance shape checks, MIR guarded reachability"),
+             "query). The coinductive relation's soundness over all closed contractive types is NOT decided. Polarity is decided semantically on MIR (forced call results + constant propagation), so iterator, early-return, flag and settles-style loops are classified alike; union construction is structural (never consults the relation); a runtime type check is elided only under an is_compatible judgment.",
+        design="§3 C09", technique="static analysis: HIR pattern-matrix evaluation over variant pairs, quantifier/variance shape checks, MIR guarded reachability; semantic quantifier-polarity analysis on MIR"),
     "C11": dict(
         text="Decides the ordering/commit clauses behind 'a rejected line leaves the session exactly as it was' and the alignment plumbing: session "
              "fields and the persistent process are touched only on the success edge of the compile `?`, compaction precedes compilation and "
              "re-indexes bindings and locals by one permutation, the compiler mutates clones, resume feeds the previous result, persistent "
-             "top-level locals survive frame exit. Per-line value equivalence with a single program is NOT decided.",
+             "top-level locals survive frame exit. Per-line value equivalence with a single program is NOT decided. Also: compaction is unconditional once a REPL process exists; per-line result delivery never reaches resource cleanup.",
         design="§3 C11", technique="static analysis: MIR dominance on the Continue edge of `?`, argument provenance and value-source slices"),
     "C06": dict(
         text="Root-write audit over the resolved MIR of the whole workspace: every mutation of a GC root (derived from the Process/SelectState ADTs) "
@@ -82,7 +82,7 @@ CLAIMS = {
     "C08": dict(
         text="Decides the table-construction clauses behind IsType: one-to-one Value->ConcreteType tagging, each tag inserted iff "
              "is_compatible(<its own type id>, pattern), every ProgramUpdate carrying tables recomputed by the compute_* functions from the FULL "
-             "merged program, update_program replacing them. No type test is evaluated; soundness of is_compatible is C09.",
+             "merged program, update_program replacing them. No type test is evaluated; soundness of is_compatible is C09. Also: row p of the IsType table is compute_compatible_concrete_types(p) itself (not assembled from per-variant parts), and process handles are tagged with the entry function.",
         design="§3 C08", technique="static analysis: HIR pattern matrices, MIR value-source slices and guarded reachability"),
     "C12": dict(
         text="Decides the TOTALITY half: an interval abstract interpretation with branch refinement, relational >= facts, range-iterator payloads, "
@@ -98,7 +98,7 @@ CLAIMS = {
         text="Decides coverage/symmetry of the values_equal variant-pair table (diagonal explicit, off-diagonal false, binaries by content for all "
              "representation pairs, tuples by canonical shape), the single minting site and advancing counter of refs, worker-id plumbing, "
              "non-re-emission of compile-time refs, and recomputation of the canonical-shape table. Does not decide that every construction path "
-             "yields ids the canonical table reconciles.",
+             "yields ids the canonical table reconciles. Also: Value::Process is constructed only at reviewed sites and a self handle takes its function index from the entry frame.",
         design="§3 C13", technique="static analysis: HIR pattern-matrix evaluation, MIR constructor census and value-source checks"),
     "C14": dict(
         text="Decides: the ownership test guards the only EffectBackend::execute call path-wise; three reviewed writers of the ownership map; "
@@ -119,14 +119,14 @@ CLAIMS = {
     "C16": dict(
         text="Decides the constant-space MECHANISM: the TailCall handler (and everything it reaches) pushes no frame, truncates locals before "
              "pushing new ones on every non-error path, overwrites the top frame in place with the same locals_base; frames are pushed at three "
-             "reviewed sites; block stripping never splices a tail call out of final position. Peak sizes over N iterations are not measured.",
-        design="§3 C16", technique="static analysis: MIR path exploration, value-source checks and who-may-call census"),
+             "reviewed sites; block stripping never splices a tail call out of final position. Peak sizes over N iterations are not measured. Also: the height at which each emitted TailCall executes is fixed per combination of the generator's flag parameters (emission-effect analysis), and reclamation runs unconditionally at every step boundary.",
+        design="§3 C16", technique="static analysis: MIR path exploration, value-source checks and who-may-call census; emission-effect abstract interpretation of the code generator (tail-call heights)"),
     "C18": dict(
         text="Decides the no-panic clause structurally: a deny-by-default census of every panic-capable construct (unwrap/expect/panic, slice and "
              "str indexing, bounds asserts, usize subtraction) reachable from parse and Compiler::compile with reviewed per-(function, kind) "
              "ceilings, a taint rule that numbers parsed from the source are never unwrapped, and the byte-offset discipline of string "
-             "post-processing (a predicate stepped over one BYTE at a time admits ASCII only). Termination and error positions are NOT decided.",
-        design="§3 C18", technique="static analysis: reach-set panic-site census with reviewed table; backward-slice taint rule; HIR sibling invariant"),
+             "post-processing (a predicate stepped over one BYTE at a time admits ASCII only). Termination and error positions are NOT decided. Also: a FIRST-set analysis of every nom `alt` rules out exponential backtracking (two alternatives that consume the same opening and descend into the same recursive rule) — it reports one genuine defect recorded as known findings (nested parenthesised types parse in 2^depth) — and every fresh type-variable binding in unify is unreachable for a self-binding (non-terminating recursion).",
+        design="§3 C18", technique="static analysis: reach-set panic-site census with reviewed table; backward-slice taint rule; HIR sibling invariant; PEG FIRST-set / common-prefix analysis over the resolved combinator trees"),
 }
 
 NOT_APPLICABLE = {
